@@ -188,7 +188,7 @@ fn bodies() -> Vec<Vec<u8>> {
 }
 
 fn catch<T>(f: impl FnOnce() -> T) -> Result<T, String> {
-    crate::pool::crumb(|| "C07 codec sweep".to_string());
+    crate::pool::crumb(|| "codec sweep (see the unit for the input family)".to_string());
     std::panic::catch_unwind(std::panic::AssertUnwindSafe(f)).map_err(|p| crate::exec::panic_message(&p))
 }
 
@@ -403,6 +403,42 @@ fn run(unit: &Value, tier: Tier, out: &mut UnitResult) {
                     }
                 }
             }
+            // bincode lengths inside the header frame that claim absurd sizes
+            if *is_req {
+                for claimed in [u64::MAX, 1u64 << 63, (1u64 << 63) - 1, 1 << 40, 1 << 32] {
+                    for which in ["route", "map", "key", "value"] {
+                        out.evaluations += 1;
+                        out.class("absurd-bincode-length");
+                        let mut h: Vec<u8> = vec![];
+                        match which {
+                            "route" => h.extend_from_slice(&claimed.to_le_bytes()),
+                            _ => {
+                                h.extend_from_slice(&2u64.to_le_bytes());
+                                h.extend_from_slice(b"/r");
+                                if which == "map" {
+                                    h.extend_from_slice(&claimed.to_le_bytes());
+                                } else {
+                                    h.extend_from_slice(&1u64.to_le_bytes());
+                                    if which == "key" {
+                                        h.extend_from_slice(&claimed.to_le_bytes());
+                                    } else {
+                                        h.extend_from_slice(&1u64.to_le_bytes());
+                                        h.push(b'k');
+                                        h.extend_from_slice(&claimed.to_le_bytes());
+                                    }
+                                }
+                            }
+                        }
+                        h.extend_from_slice(b"tail");
+                        let m = ref_frames(1, &h, b"");
+                        match dec(&m, vec![]) {
+                            Err(p) => out.violation("codec-panics", format!("decoder panicked on a {which} length of {claimed}: {p}"), rp("bincode-len", json!([si, which, claimed]))),
+                            Ok(Ok(_)) => out.violation("prefix-accepted", format!("a header whose {which} claims {claimed} bytes decoded successfully"), rp("bincode-len", json!([si, which, claimed]))),
+                            Ok(Err(_)) => {}
+                        }
+                    }
+                }
+            }
             // hostile length prefixes with little data behind them
             for (which, at) in [("header", 8usize), ("body", bytes.len())] {
                 for len in [0u32, 1, 0x7fff_ffff, 0x8000_0000, 0xffff_ffff, 8 * 1024 * 1024, 8 * 1024 * 1024 + 1] {
@@ -440,12 +476,12 @@ impl Check for C07 {
     }
 
     fn units(&self, _tier: Tier) -> Vec<Value> {
-        let mut u = vec![json!({"kind":"versions"}), json!({"kind":"status"})];
+        let mut u = vec![json!({"kind":"versions","on_death":"decoder-aborts-process"}), json!({"kind":"status","on_death":"decoder-aborts-process"})];
         for part in 0..12 {
-            u.push(json!({"kind":"roundtrip","part":part,"parts":12}));
+            u.push(json!({"kind":"roundtrip","part":part,"parts":12,"on_death":"decoder-aborts-process"}));
         }
         for s in 0..5 {
-            u.push(json!({"kind":"mutate","sample":s}));
+            u.push(json!({"kind":"mutate","sample":s,"on_death":"decoder-aborts-process"}));
         }
         u
     }
